@@ -27,15 +27,25 @@ OT = "QtLogger::OwnThreadHandler"
 
 def run(ck):
     F = ck.facts
-    ck.rule("C02-O1", "every call in Logger::messageHandler/processMessage that can reach a pipeline run is made with Logger::m_mutex held (one acquisition around the whole run)")
+    ck.rule("C02-O1", "every call in Logger::messageHandler/processMessage that can reach a pipeline operation (running the handlers or flushing the sinks) is made with Logger::m_mutex held (one acquisition around the whole run)")
     ck.rule("C02-O2", "OwnThreadHandler<B>::process holds its own m_mutex at the synchronous B::process call and at postEvent, in every instantiation")
     ck.rule("C02-O5", "nested lock acquisitions form an acyclic order; the non-recursive handler mutex is never re-acquired on the same object while held")
     ck.rule("C02-O6", "the active logger is published through an atomic pointer, tested for null before use, and cleared by ~Logger")
     pproc = F.fn("QtLogger::Pipeline::process")
-    # functions from which a pipeline run is reachable
+    # pipeline operations: running the handlers, and flushing the sinks (a flush touches the same sink state as send())
+    ops = {pproc.id}
+    sflush = F.fn("QtLogger::Sink::flush", optional=True)
+    if sflush is not None:
+        ops.add(sflush.id)
+        ops |= {o for o in F.overriders.get(sflush.id, ()) if o in F.fns}
+    for nm in ("QtLogger::SimplePipeline::flush", "QtLogger::SimplePipeline::recursiveFlush"):
+        for x in F.fn_all(nm):
+            ops.add(x.id)
+    ck.notes.append("pipeline operations guarded by the logger mutex: %s" % sorted(F.fns[o].name for o in ops if o in F.fns))
+    # functions from which a pipeline operation is reachable
     reaches = set()
     for f in F.fns.values():
-        if pproc.id in F.reachable_from([f]):
+        if ops & F.reachable_from([f]):
             reaches.add(f.id)
 
     def can_run_pipeline(n):
